@@ -22,6 +22,9 @@ import (
 
 const ModPath = "capnproto.org/go/capnp/v3"
 
+// sampleCap bounds the number of obligations per rule written to evidence samples.
+var sampleCap = 6
+
 // Prog is the loaded, type-checked repository.
 type Prog struct {
 	Dir    string
@@ -438,7 +441,7 @@ func (r *Report) Finish(verifDir string, explanation string, configs []string, s
 	var samples []interface{}
 	perRule := map[string]int{}
 	for _, o := range r.Obs {
-		if perRule[o.Rule] >= 4 {
+		if perRule[o.Rule] >= sampleCap {
 			continue
 		}
 		perRule[o.Rule]++
